@@ -846,3 +846,7 @@ M('c01e-d34-flag-read-after-callbacks', 'C01', 'break', TX,
 M('c01e-flag-read-into-differently-named-local-keep', 'C01', 'keep', TX, None, None, None,
   edits=[(TX, '    int tx_auto_destroy = tx->connp->cfg->tx_auto_destroy;', '    const int destroy_after = tx->connp->cfg->tx_auto_destroy;'),
          (TX, '    if (tx_auto_destroy) {\n        htp_tx_destroy(tx);', '    if (destroy_after != 0) {\n        htp_tx_destroy(tx);')])
+
+# ---------------- D35 chunk-length probe consults the carry buffer
+M('c03b-d35-probe-ignores-carry', 'C03', 'break', RS,
+  '    size_t buffered = (connp->out_buf != NULL) ? connp->out_buf_size : 0;', '    size_t buffered = 0;', 'C03')
